@@ -1,5 +1,6 @@
 import FlexiVerif.Model.Flw
 import FlexiVerif.Model.Names
+import FlexiVerif.Model.Bg
 import FlexiVerif.Model.FlwTrace
 import Driver.Codec
 /-
@@ -226,6 +227,27 @@ def step (s : St) (toks : List String) : St × String :=
     let new := s.st.errs.drop s.errSeen
     ({ s with errSeen := s.st.errs.length },
       if new.isEmpty then "-" else ",".intercalate (new.map errKindStr))
+  -- the cleanup thread's protocol as observed by the harness, replayed on the `Bg` model: the
+  -- file operations the model's thread performs at the observed steps, and the rotated files left
+  | ["BGOBS", k, m, ev] =>
+    match k.toNat?, m.toNat? with
+    | some k, some m =>
+      let evs := if ev = "-" then [] else ev.toList
+      let (sys, ops) := evs.foldl (fun (acc : FV.Bg.Sys × List String) c =>
+        let (sy, ops) := acc
+        if c = 'R' then (FV.Bg.step k m sy .rotate, ops)
+        else if c = 'K' then (FV.Bg.step k m sy .kick, ops)
+        else if c = 'T' then (FV.Bg.step k m sy .take, ops)
+        else if c = 'X' then
+          let o := match sy.cur with
+            | [] => "none"
+            | .remove id :: _ => s!"r{id}"
+            | .compress id :: _ => s!"c{id}"
+          (FV.Bg.step k m sy .exec, ops ++ [o])
+        else (sy, ops ++ ["bad-event"])) (({} : FV.Bg.Sys), [])
+      let fin := (FV.Bg.drainAll k m sys).d.map (fun f => s!"{f.id}{if f.gz then "g" else "p"}")
+      (s, (if ops.isEmpty then "-" else ",".intercalate ops) ++ "|" ++ (if fin.isEmpty then "-" else " ".intercalate fin))
+    | _, _ => (s, "bad-op")
   | "NOTE" :: _ => (s, "ok")
   | ["MODE", m] => ({ s with asyncMode := m.startsWith "async" }, "ok")
   | ["BGCLEAN", _] => (s, "ok")
